@@ -160,7 +160,9 @@ DESCRIPTIONS = [None, None, "A simple description.", "Line one\nLine two", "with
 HOSTILE_DESCRIPTIONS = ['quote " inside', 'ends with quote"', "ends with backslash\\", "  leading spaces",
                         "\tleading tab", "   uniform\n   indentation", "x" * 130 + " long-word " + "y" * 10,
                         'triple """ quote', "", " ", "trailing space ", "emoji \U0001f600", "a\n\n\nb",
-                        "first\n    indented second", "word " * 40]
+                        "first\n    indented second", "word " * 40,
+                        "a\n  \nb", "line\u2028separator", "paragraph\u2029separator", "next\u0085line",
+                        "x\n\u2028\ny"]
 
 
 class SchemaGen(object):
